@@ -211,3 +211,102 @@ func runEnum(ec enumCase) vrun.Result {
 	res.AddSet("trigger_x_plan", ec.Trigger+"|"+ec.Plan.Name)
 	return res
 }
+
+// ---------------------------------------------------------------------------------------------------------------------
+// Stalled underlying writes: a peer that does not drain its socket blocks the underlying Write. Close must still return
+// and fail the pending Write; reads and control pings must keep working while a Write is stalled.
+
+type stallCase struct {
+	Kind     string `json:"kind"` // close-behind-stalled-write | traffic-behind-stalled-write
+	Pings    int    `json:"pings,omitempty"`
+	Data     int    `json:"data_messages,omitempty"`
+	AfterRed bool   `json:"on_a_redialled_connection"`
+	GivenTID bool   `json:"given_transport_id"`
+}
+
+func TestC18StalledWrite(t *testing.T) {
+	var cases []stallCase
+	for _, red := range []bool{false, true} {
+		for _, tid := range []bool{false, true} {
+			cases = append(cases, stallCase{Kind: "close-behind-stalled-write", AfterRed: red, GivenTID: tid})
+			for _, pings := range []int{1, 8, 9, 12, 40} {
+				for _, data := range []int{0, 3} {
+					cases = append(cases, stallCase{Kind: "traffic-behind-stalled-write", Pings: pings, Data: data, AfterRed: red, GivenTID: tid})
+				}
+			}
+		}
+	}
+	meta := vrun.Meta{Property: "C18", Workload: "TestC18StalledWrite", Total: len(cases), Exhaustive: true,
+		Rule: "virtual time; the underlying connection's Write blocks (peer not draining) while one library Write is in progress - on the first or on a redialled connection. " +
+			"(close) Close is called: it returns, the pending Write and the pending Read return with an error. " +
+			"(traffic) the peer sends 1/8/9/12/40 control pings and 0/3 data messages while the Write is stalled: the data messages are returned by Read meanwhile; after the stall is released the pending Write returns nil and every ping has been answered by a pong. " +
+			"The grid is enumerated completely. Non-trivial: the stall was reached with a Write pending. Distinct: the case tuple.",
+		Assumptions: vtAssumptions}
+	vrun.Loop(t, meta, 0, func(c *vrun.Case) vrun.Result {
+		sc := cases[c.Index]
+		return runBubble(c.T, func() vrun.Result { return runStall(sc) })
+	})
+}
+
+func runStall(sc stallCase) vrun.Result {
+	s, err := openSession(sessCfg{Budget: 5, Interval: 10 * time.Millisecond, GivenTID: sc.GivenTID}, true)
+	if err != nil {
+		return vrun.Inconcl("initial Dial failed: " + err.Error())
+	}
+	s.startReader()
+	settle(0)
+	s.issue(func() { s.rec.write(s.tr, 0, 0) })
+	if sc.AfterRed {
+		if cur := s.w.live(); cur != nil {
+			cur.failReadNow()
+			settle(vBound / 2)
+		}
+	}
+	cur := s.w.live()
+	if cur == nil {
+		return vrun.Inconcl("no live connection to stall")
+	}
+	cur.stallWrites()
+	// one library Write that stays inside the underlying Write
+	var pending atomic.Bool
+	s.active.Add(1)
+	go func() {
+		defer s.active.Add(-1)
+		s.rec.write(s.tr, 0, 1)
+		pending.Store(true)
+	}()
+	settle(time.Second)
+	reached := !pending.Load()
+	sig := fmt.Sprintf("%s|%d|%d|%v|%v", sc.Kind, sc.Pings, sc.Data, sc.AfterRed, sc.GivenTID)
+	switch sc.Kind {
+	case "close-behind-stalled-write":
+		if !s.issue(func() { s.closeNow() }) {
+			s.add(finding{6, clBlock, "close-blocks-behind-stalled-write", map[string]any{"virtual_wait": vBound.String()}})
+			cur.releaseWrites()
+			settle(vBound)
+		}
+	case "traffic-behind-stalled-write":
+		before := s.reads.Load()
+		for i := 0; i < sc.Data; i++ {
+			cur.feed(fmt.Sprintf("stall-d-%02d", i))
+		}
+		for i := 0; i < sc.Pings; i++ {
+			cur.feed(pingMsg)
+		}
+		settle(0)
+		settle(time.Minute)
+		if sc.Data > 0 && int(s.reads.Load()-before) < sc.Data && s.rec.situation() == "live" {
+			s.add(finding{4, clReads, "read-stalled-behind-a-stalled-write", map[string]any{"data_messages_fed": sc.Data, "returned_by_read": s.reads.Load() - before}})
+		}
+		cur.releaseWrites()
+		settle(vBound / 2)
+		if p, q := countPingPong(s.w.snap()); q < p && s.rec.situation() == "live" {
+			s.add(finding{4, clReads, "ping-unanswered", map[string]any{"pings_delivered": p, "pongs_accepted": q, "pings_sent_while_the_write_was_stalled": sc.Pings}})
+		}
+	}
+	res := s.finish(sc, sig, true)
+	if res.Verdict == vrun.Held {
+		res.NonTrivial = reached
+	}
+	return res
+}
